@@ -85,16 +85,22 @@ VARS_CORPUS = [
 def gen_prog(r):
     """returns (prog, doc_xml).  Node = [kind token, label, kids, extra]"""
     nt = r.range(1, 4)
+    nsets = r.weighted([(0, 2), (1, 2), (2, 2)])      # attribute sets = extra "templates" nt … nt+nsets-1
     apply_lists = []          # one child sequence of the document per apply-templates instruction
 
     def node(t, depth, budget):
         k = r.weighted([("l", 6), ("b", 4 if depth < 4 else 0), ("c", 3 if t + 1 < nt else 0),
-                        ("L", 3 if depth < 4 else 0), ("A", 3 if t + 1 < nt else 0), ("p", 2 if depth < 4 else 0)])
+                        ("L", 3 if depth < 4 else 0), ("A", 3 if t + 1 < nt else 0), ("p", 2 if depth < 4 else 0),
+                        ("U", 3 if (nsets and depth < 4) else 0)])
         budget[0] -= 1
         if k == "l" or budget[0] <= 0:
             return ["l", r.choice(["valueof", "text", "copyof"]), [], None]
         if k == "b":
             return ["b", r.choice(["if", "lre", "if"]), [node(t, depth + 1, budget) for _ in range(r.range(0, 3))], None]
+        if k == "U":
+            # literal result element with xsl:use-attribute-sets
+            ts = [nt + r.below(nsets) for _ in range(r.range(1, 2))]
+            return ["U" + ",".join(str(x) for x in ts), "lreuse", [node(t, depth + 1, budget) for _ in range(r.range(0, 3))], ts]
         if k == "p":
             # xsl:choose: whens with false() tests, then (maybe) a true() one or an otherwise
             nk = r.range(1, 3)
@@ -139,6 +145,10 @@ def gen_prog(r):
         top = ["b", "template", [node(t, 1, budget) for _ in range(r.range(0, 4))], None]
         no_direct(top)
         prog.append(top)
+    for j in range(nsets):
+        uses = [x for x in range(nt + j + 1, nt + nsets) if r.chance(1, 2)]
+        kids = [["l", "attribute", [], None] for _ in range(r.range(0, 2))]
+        prog.append([("U" + ",".join(str(x) for x in uses)) if uses else "b", "attrset", kids, uses])
     doc = "<r><n><i/><i/><i/></n>" + "".join("<s%d>%s</s%d>" % (j, "".join("<m%d/>" % t for t in ts), j)
                                              for j, ts in enumerate(apply_lists)) + "</r>"
     return prog, doc
@@ -158,6 +168,10 @@ def prog_xml(prog):
             return "<xsl:if test=\"true()\">%s</xsl:if>" % inner
         if label == "lre":
             return "<b>%s</b>" % inner
+        if label == "lreuse":
+            return "<b xsl:use-attribute-sets=\"%s\">%s</b>" % (" ".join("s%d" % x for x in extra), inner)
+        if label == "attribute":
+            return "<xsl:attribute name=\"a%d\">v</xsl:attribute>" % idx
         if label == "withparam":
             return ("<xsl:with-param name=\"w%d\" select=\"1\"/>" % idx) if k == "l" else "<xsl:with-param name=\"w%d\">%s</xsl:with-param>" % (idx, inner)
         if label == "call":
@@ -175,6 +189,10 @@ def prog_xml(prog):
         raise ValueError(label)
     out = '<xsl:stylesheet xmlns:xsl="http://www.w3.org/1999/XSL/Transform" version="1.0">'
     for t, n in enumerate(prog):
+        if n[1] == "attrset":
+            out += '<xsl:attribute-set name="s%d"%s>%s</xsl:attribute-set>' % (
+                t, ' use-attribute-sets="%s"' % " ".join("s%d" % x for x in n[3]) if n[3] else "", "".join(render(c, i) for i, c in enumerate(n[2])))
+            continue
         out += '<xsl:template name="t%d" match="%s">%s</xsl:template>' % (t, "/" if t == 0 else "m%d" % t, "".join(render(c, i) for i, c in enumerate(n[2])))
     return out + "</xsl:stylesheet>"
 
@@ -187,6 +205,7 @@ def prog_tok(prog):
 
 TRACE_NAME = {"valueof": "xsl:value-of", "text": "xsl:text", "copyof": "xsl:copy-of", "if": "xsl:if", "lre": None,
               "withparam": "xsl:with-param", "call": "xsl:call-template", "template": "xsl:template",
+              "lreuse": None, "attrset": None, "attribute": "xsl:attribute",
               "foreach": None, "apply": "xsl:apply-templates", "choose": "xsl:choose", "when": "xsl:when", "otherwise": "xsl:otherwise"}
 
 
@@ -254,9 +273,15 @@ def split_replies(line):
 def run(ctx, runner, r):
     """runner(lines, tag) -> (impl_lines, model_lines, impl_rc, model_rc, impl_err, model_err)"""
     n = 400 if not ctx.thorough else 20000
+    # probe: does a parameter lookup activate the passed entry in place (finding F4) on this tree?
+    pi, _, _, _, _, _ = runner([VARS_CORPUS[0]], "probe")
+    activating = bool(pi and pi[0] and pi[0].split(" ")[13:14] == ["2"])
+    ctx.extra["variables_stack_findEntry_activates"] = activating
+    mode = "vars mode %d " % (1 if activating else 0)
     lines = list(VARS_CORPUS)
     for _ in range(n):
         lines.append(gen_vars(r, 12 if r.chance(1, 2) else 40))
+    lines = [mode + ln[len("vars "):] for ln in lines]
     il, ml, irc, mrc, ierr, merr = runner(lines, "vars")
     bad = []
     for i, ln in enumerate(lines):
@@ -281,7 +306,7 @@ def run(ctx, runner, r):
     for i, p in enumerate(progs):
         a = il[i] if i < len(il) else None
         b = ml[i] if i < len(ml) else None
-        ncall = prog_tok(p).count("( c") + prog_tok(p).count("( A") + prog_tok(p).count("( L")
+        ncall = prog_tok(p).count("( c") + prog_tok(p).count("( A") + prog_tok(p).count("( L") + prog_tok(p).count("( U")
         ctx.case(nontrivial_key=wl[i] if ncall >= 1 else None, cls="walk:calls=%d" % min(ncall, 3), sample=prog_xml(p)[:400] if i == 0 else None)
         if a is None or b is None or not a.startswith("ok") or not b.startswith("ok "):
             badw.append({"request": wl[i], "impl": a, "model": b})
@@ -320,3 +345,28 @@ def run(ctx, runner, r):
     ctx.oblige("correspondence: events delivered by XSLTEngineImpl = Pending.run on every generated call sequence "
                "(guarded regime of pending_refines_spec)", "correspondence", not badp, str(badp[:1])[:1500])
     ctx.extra["pending_logs"] = len(pl)
+    # ---- Core: stylesheets of the Core fragment: real engine = Core.run (= Spec.transform, checked by the driver)
+    from gen import c01_gen as G
+    ncore = 600 if not ctx.thorough else 12000
+    cl = []
+    for i in range(ncore):
+        g = G.Gen(r, r.weighted([(1, 3), (2, 5), (3, 1)]), fragment=True)
+        ss = g.gen_stylesheet()
+        doc = g.gen_doc()
+        cl.append(G.request_line("k%d" % i, ss, doc, verb="core"))
+    il, ml, irc, mrc, ierr, merr = runner(cl, "core")
+    badc = []
+    for i, line in enumerate(cl):
+        a = il[i] if i < len(il) else None
+        b = ml[i] if i < len(ml) else None
+        if a == "big":
+            ctx.case(cls="core:oversized(skipped)")
+            continue
+        ca, cb = C.canon(a), C.canon(b)
+        ctx.case(nontrivial_key=line if ca[0] == "ok" and len(ca[1]) >= 3 else None, cls="core:<=5ev" if ca[0] == "ok" and len(ca[1]) <= 5 else "core:>5ev",
+                 sample=None)
+        if ca != cb or ca[0] != "ok":
+            badc.append({"request": line[:3000], "impl": (a or "")[:300], "model": (b or "")[:300]})
+    ctx.oblige("correspondence: real engine = Core.run (iterative engine model with oracle from Spec.eval) = Spec.transform "
+               "on every generated stylesheet of the Core fragment", "correspondence", not badc, str(badc[:1])[:1800])
+    ctx.extra["core_cases"] = len(cl)
